@@ -202,6 +202,8 @@ def r2_walk(program, folder, rep):
     want = {0: (1, 0), 1: (0, 1), 2: (-1, -1)}
     bad_step = bad_label = bad_wrap = False
     why = ""
+    wrong_axis = []     # a component wrapped by the size of the other axis
+    deferred = []       # forms not read: no verdict, said at the end
     ps_ = formals(fn)
     if "width" not in ps_ or "height" not in ps_:
         raise AnalysisError("longest_dimension_first: width / height "
@@ -243,13 +245,38 @@ def r2_walk(program, folder, rep):
                     for i, none in ((0, wn), (1, hn)):
                         c = rec[1 + i]
                         if not none:
-                            if not (c[0] == "binop" and c[1] == "Mod" and
-                                    c[3] == SIZES[i]):
+                            alts = alternatives(c)
+                            if len(alts) > 1:
+                                # a conditional correction (x - W above the
+                                # edge, x % W below): the size it uses is
+                                # read, its conditions are not
+                                for a_ in alts:
+                                    if a_[0] == "binop" and a_[1] in (
+                                            "Mod", "Sub", "Add") and \
+                                            a_[3] in SIZES:
+                                        if a_[3] != SIZES[i]:
+                                            wrong_axis.append(
+                                                "component %d is corrected "
+                                                "by %s" % (i, a_[3][1]))
+                                if not wrong_axis:
+                                    deferred.append(
+                                        "longest_dimension_first: the "
+                                        "position is wrapped by conditional "
+                                        "corrections, a form whose "
+                                        "conditions this rule does not read")
+                                continue
+                            elif not (c[0] == "binop" and c[1] == "Mod" and
+                                      c[3] in SIZES):
                                 bad_wrap = True
                                 why = "component %d not taken modulo %s" % (
                                     i, SIZES[i][1])
                                 continue
-                            c = c[2]
+                            elif c[3] != SIZES[i]:
+                                wrong_axis.append("component %d is taken "
+                                                  "modulo %s" % (i, c[3][1]))
+                                continue
+                            else:
+                                c = c[2]
                         elif c[0] == "binop" and c[1] == "Mod":
                             bad_wrap = True
                             continue
@@ -301,7 +328,13 @@ def r2_walk(program, folder, rep):
     rep.check(hop[1] == lab_t or lab_t in alternatives(hop[1]), "C11-R2",
               inst, "the hop recorded carries that label",
               construct="sign", node=fn)
-    okw = not bad_wrap
+    rep.check(not wrong_axis, "C11-R2", inst, "x is wrapped by the width "
+              "and y by the height", construct="walk wrap axis", node=fn,
+              positive=True,
+              fail="the walk wraps a coordinate by the size of the other "
+                   "axis (%s): on a machine that is not square the hops land "
+                   "on the wrong chips" % "; ".join(sorted(set(wrong_axis))))
+    okw = not bad_wrap or bool(deferred)
     rep.check(okw, "C11-R2",
               inst, "positions are wrapped modulo (width, height) and "
               "recorded after the step", construct="walk wrap", node=fn)
@@ -490,6 +523,8 @@ def r2_walk(program, folder, rep):
                    "of radius r does not produce its 6r points exactly "
                    "once" % yd)
     rep.floor("C11-R2", 7)
+    if deferred:
+        raise AnalysisError(deferred[0])
 
 
 def _lin(fl, t):
